@@ -61,7 +61,7 @@ def handle (j : Json) : Except String Json := do
     let splits ← (← jarr j "splits").toList.mapM splitOf
     let p ← paramsOf j
     let imps := splits.map Imp.fromSplit
-    let S := imps.eraseDups
+    let S := dedup imps
     let fs := max 1 p.fromSpaces
     let stmtsJ := match getStatements S p.sepFrom with
       | .ok ss => Json.arr (ss.map stmtJ).toArray
